@@ -311,9 +311,51 @@ def sweep_cases(names, full):
                    "precompute": (None, "lazy", None, "eager")[(j // 2) % 4], "positional": (j // 4) % 2 == 1}
 
 
+def _interleaved_jobs():
+    """two threads, each with its own key on its own curve (they share nothing but the library's modules):
+    sign, serialise, reload, verify"""
+    from ecdsa import SigningKey, VerifyingKey
+    from ecdsa import util as U
+    d1, d2 = gen.dom("t4093"), gen.dom("t1021a")
+
+    def job(d, dd, msg, hf, enc, dec, fmt):
+        def run():
+            sk = SigningKey.from_secret_exponent(dd, curve=d.lib, hashfunc=hf)
+            sig = sk.sign_deterministic(msg, sigencode=enc)
+            vk = VerifyingKey.from_string(sk.get_verifying_key().to_string(fmt), curve=d.lib, hashfunc=hf)
+            ok = vk.verify(sig, msg, sigdecode=dec)
+            sig2 = sk.sign_digest(hf(msg).digest(), k=(dd % (d.n - 5)) + 2, sigencode=U.sigencode_string, allow_truncate=True)
+            ok2 = vk.verify_digest(sig2, hf(msg).digest(), allow_truncate=True)
+            try:
+                bad = vk.verify(sig, msg + b"!", sigdecode=dec)
+            except BadSignatureError:
+                bad = "BadSignatureError"
+            return [sig.hex() if isinstance(sig, bytes) else repr(sig), ok, sig2.hex(), ok2, bad]
+        return run
+    return {"a": job(d1, d1.n // 3 + 1, b"message a", hashlib.sha256, U.sigencode_der, U.sigdecode_der, "compressed"),
+            "b": job(d2, d2.n - 2, b"message b", hashlib.sha256, U.sigencode_string_canonize, U.sigdecode_string, "uncompressed")}
+
+
+def _interleaved(ctx, stride, max_schedules):
+    from .purity import interleaved_pure
+    import ecdsa.keys as K
+    import ecdsa.ecdsa as E
+    import ecdsa.ellipticcurve as EL
+    import ecdsa.util as UM
+    import ecdsa.rfc6979 as RF
+    import ecdsa.der as DM
+    import ecdsa.numbertheory as NM
+    jobs = _interleaved_jobs()
+    for k, f in jobs.items():
+        r = f()
+        if r[1] is not True or r[3] is not True or r[4] != "BadSignatureError":
+            raise RuntimeError("sequential job of the interleaved unit does not verify: the ordinary units report that")
+    interleaved_pure(ctx, "sign-verify", [K, E, EL, UM, RF, DM, NM], jobs, stride, second_counts=(None, 40), max_schedules=max_schedules)
+
+
 def units(tier, seed):
     q = tier == "quick"
-    out = []
+    out = [("interleaved", {"stride": 1, "max": 2500 if q else 40000})]
     names = sorted(gen.NAMED, key=lambda x: -gen.dom(x).p)
     for nm in names:
         out.append(("sweep", {"names": [nm], "full": not q}))
@@ -340,6 +382,9 @@ def units(tier, seed):
 
 
 def run_unit(ctx, name, **kw):
+    if name == "interleaved":
+        _interleaved(ctx, kw["stride"], kw["max"])
+        return
     if name == "sweep":
         cache = {}
         last = None
@@ -369,4 +414,7 @@ def run_unit(ctx, name, **kw):
 
 
 def replay(ctx, case):
+    if case.get("kind") == "interleaved":
+        _interleaved(ctx, 1, 2500)
+        return
     check_case(ctx, case)
